@@ -27,9 +27,12 @@ type ForeignMember struct {
 }
 
 type ForeignSpec struct {
-	Format  tar.Format
-	Style   string // "./" | "/" | "top/" | "." | "top" (how the top directory and members are named)
-	Top     string // name of the top directory for the named styles
+	Format tar.Format
+	Style  string // "./" | "/" | "top/" | "." | "top" (how the top directory and members are named)
+	Top    string // name of the top directory for the named styles
+	// Pad: zero blocks appended after the end-of-archive marker (tar -b N pads an archive to a
+	// whole record)
+	Pad     int
 	Members []ForeignMember
 }
 
@@ -92,6 +95,10 @@ var foreignFormats = []tar.Format{tar.FormatUSTAR, tar.FormatPAX, tar.FormatGNU}
 
 func GenForeign(r *rand.Rand, j int) ForeignSpec {
 	s := ForeignSpec{Format: foreignFormats[j%3], Style: foreignStyles[(j/3)%len(foreignStyles)], Top: []string{"top", "data", "backup-2021"}[r.Intn(3)]}
+	if j%5 == 4 {
+		// a record-padded archive: 1..2*20 extra zero blocks (odd and even counts)
+		s.Pad = 1 + r.Intn(40)
+	}
 	s.Members = append(s.Members, ForeignMember{Rel: "", Dir: true, Mode: 0o755})
 	dirs := []string{""}
 	nameOf := func() string {
@@ -108,7 +115,7 @@ func GenForeign(r *rand.Rand, j int) ForeignSpec {
 			}
 			return []string{"a b", "x.tar", "ü", "UPPER", "a%b", "a_b"}[r.Intn(6)]
 		}
-		return []string{"a", "b", "c", "docs", "f1", "f2", "img", "src", "lib", "x", "y"}[r.Intn(11)]
+		return []string{"a", "b", "c", "docs", "f1", "f2", "img", "src", "lib", "x", "y", ".profile", "profile", ".env", "Docs", "rel_1", "rel-1", "100%", "100x"}[r.Intn(19)]
 	}
 	have := map[string]bool{"": true}
 	n := 2 + r.Intn(9)
@@ -160,12 +167,20 @@ func WriteForeign(p string, s ForeignSpec) error {
 			}
 		}
 	}
-	return tw.Close()
+	if err := tw.Close(); err != nil {
+		return err
+	}
+	if s.Pad > 0 {
+		if _, err := f.Write(make([]byte, 512*s.Pad)); err != nil {
+			return err
+		}
+	}
+	return nil
 }
 
 // encode / decode of a spec as directive arguments (so that a replay file is self-contained)
 func (s ForeignSpec) Args() []string {
-	out := []string{"fmt=" + s.FormatName(), "style=" + EncName(s.Style), "top=" + EncName(s.Top)}
+	out := []string{"fmt=" + s.FormatName(), "style=" + EncName(s.Style), "top=" + EncName(s.Top), fmt.Sprintf("pad=%d", s.Pad)}
 	for _, m := range s.Members {
 		k := "f"
 		if m.Dir {
@@ -193,6 +208,8 @@ func ParseForeign(args []string) (ForeignSpec, error) {
 			s.Style = DecName(strings.TrimPrefix(a, "style="))
 		case strings.HasPrefix(a, "top="):
 			s.Top = DecName(strings.TrimPrefix(a, "top="))
+		case strings.HasPrefix(a, "pad="):
+			fmt.Sscan(strings.TrimPrefix(a, "pad="), &s.Pad)
 		default:
 			f := strings.Split(a, ":")
 			if len(f) != 5 {
@@ -239,7 +256,9 @@ func ForeignItemLines(items []TapeItem, spec ForeignSpec) []string {
 		switch {
 		case it.Trailer && it.HB == 0:
 			out = append(out, "item\ttrl")
-		case it.Trailer || it.HB < 0:
+		case it.Trailer:
+			out = append(out, "item\tzero")
+		case it.HB < 0:
 			out = append(out, "item\tjunk")
 		default:
 			hd := it.Hdr
